@@ -525,6 +525,8 @@ def _int_arg(ev, n, sh, at):
     v = ev.arg_scalar(n, sh, at)
     if v is BLANK:
         return 0          # a blank cell counts as 0 where a number is expected (it is not an omitted argument)
+    if isinstance(v, str) and re.fullmatch(r'\s*[+-]?\d+\s*', v):
+        return int(v)     # a number stored as text (a cell, the result of a text function, a quoted literal) is that number
     if isinstance(v, bool) or not is_num(v) or v != int(v):
         raise NoOpinion('non-integer count/position')
     return int(v)
